@@ -10,7 +10,7 @@ use hifitime::{Epoch, TimeScale};
 
 pub fn meta() -> Meta {
     Meta {
-        rule: "events = for one TAI instant within +-10000 y of J2000 expressed in a uniform scale: to_time_scale(ET|TDB), to_et_duration / to_tdb_duration, to_et_seconds / to_tdb_seconds, the way back to the uniform scale, ET/TDB -> TAI -> ET/TDB, from_et_duration / from_tdb_duration, to_jde_et_duration / to_jde_tdb_duration, and order preservation on pairs (t, t+delta), delta in [101 ns, 10 us]. Expected: |observed - closed form| <= 30 ns in both directions (closed forms of the statement, constants of the NAIF kernel, sums in i128, periodic term never by cancellation), round trips <= 20 ns, order preserved, JDE view == duration view + 2451545 days exactly, float seconds within 8 ulp of the duration view. Generation: uniform / log-distance from J2000 / dense phase sweep over one anomalistic year / reading lattice. Non-trivial = every event (each needs the transcendental model); distinct = distinct (instant, scale) hashes.",
+        rule: "events = for one TAI instant within +-10000 y of J2000 expressed in a uniform scale: to_time_scale(ET|TDB), to_et_duration / to_tdb_duration, to_et_seconds / to_tdb_seconds, the way back to the uniform scale, ET/TDB -> TAI -> ET/TDB, from_et_duration / from_tdb_duration, to_jde_et_duration / to_jde_tdb_duration, and order preservation on pairs (t, t+delta), delta in [101 ns, 10 us]. Expected: |observed - closed form| <= 30 ns in both directions (closed forms of the statement, constants of the NAIF kernel, sums in i128, periodic term never by cancellation), round trips <= 20 ns, order preserved, JDE view == duration view + 2451545 days exactly, float seconds within 8 ulp of the duration view. Generation: uniform / log-distance from J2000 / dense phase sweep over one anomalistic year / reading lattice. Non-trivial = every event (each needs the transcendental model); distinct = distinct (instant, scale) hashes. Round 6: (cross-dyn) an epoch held in ET read in TDB and vice versa, and in its own scale, through to_time_scale / to_duration_in_time_scale / named accessor (60 ns / 20 ns); (jde-exact) from_jde_et / from_jde_tdb of 2451545 + k/2 for which every float product is exact must read k half-days within 30 ns.",
         assumptions: &["f64 sin of the host libm is accurate to < 1e-12 s in the periodic term", "which time argument (TAI-based or ET-based seconds past J2000) feeds the mean anomaly is not fixed by the statement; the <= 11 ns ambiguity is inside the 30 ns tolerance"],
         mandatory: &["to-dyn/ET", "to-dyn/TDB", "from-dyn/ET", "from-dyn/TDB", "pair/order", "phase-sweep", "far/beyond-5000y", "before-j2000"],
         thorough_scale: 50,
